@@ -44,7 +44,64 @@ GENERIC_R = E.N(E.shape_atom("Prop", E.lit("r")))
 
 
 def is_cache_path(r):
-    return any("eval_context.cache" in pt(x[1]) or ".cache" in pt(x[1]) for x in r["residual"])
+    """The returned value is read from the cache (a look-up in the context's `cache` map occurs in the value; the context handed to
+    recursive calls does not count: it is irrelevant for the value algebra)."""
+    from norm import GET
+    seen = set()
+    stack = [r["term"]]
+    while stack:
+        x = stack.pop()
+        if not isinstance(x, tuple) or not x or id(x) in seen:
+            continue
+        seen.add(id(x))
+        if x[0] == "call" and x[1] == GET and x[2] and x[2][0][0] == "field" and x[2][0][2] == "cache":
+            return True
+        if x[0] in ("rec", "call") and isinstance(x[1], str) and x[1].endswith("::eval_node") and len(x[2]) >= 4:
+            stack.extend(a for i, a in enumerate(x[2]) if i not in (2, 4))
+            continue
+        stack.extend(y for y in x if isinstance(y, tuple))
+    return False
+
+
+def stabilisation_test(t, pol, lid, vars_):
+    """`t` (taken with polarity pol) says "the iterate equals its previous value": a == b / !(a != b) over two variables carried by
+    loop `lid`, one of which is updated to the other's old value in every round."""
+    while t[0] == "not":
+        t, pol = t[1], not pol
+    if not (t[0] == "bin" and t[1] in ("==", "!=") and (t[1] == "==") == bool(pol)):
+        return False
+    names = [x[2] for x in (t[2], t[3]) if x[0] == "loopvar" and x[1] == lid]
+    if len(names) != 2 or names[0] == names[1]:
+        return False
+    for cur, prev in ((names[0], names[1]), (names[1], names[0])):
+        if vars_.get(prev, (None, None))[1] == ("loopvar", lid, cur):
+            return True
+    return False
+
+
+def first_nonempty_update(t, fn, nz):
+    """`t` is the test `vars(graph).map(update).find(|u| !u.is_empty())  is Some`: True; a reason (str) when it is such a search over
+    something else than all variables of the graph / another predicate; None when `t` is no such test."""
+    import q
+    x = q.is_some_test(t)
+    if x is None or x[0] != "hof" or x[1] != "find":
+        return None
+    recv, body = x[2], x[3]
+    src = recv
+    while src[0] == "hof" and src[1] == "map":
+        src = src[2]
+    src = terms.strip_iter_adapters(src)
+    elem = nz(("elem", recv))
+    b = nz(body)
+    nonempty = b[0] == "not" and b[1][0] == "call" and b[1][1].endswith("is_empty") and b[1][2] == (elem,)
+    gname = roles(fn)[0]
+    alg = setalg.Alg()
+    want = alg.canon(("call", S.GRAPH + "variables", (gname,))) if gname else None
+    if want is None or alg.canon(src) != want:
+        return f"the update search ranges over {short(src, 80)}, not over all variables of the graph"
+    if not nonempty:
+        return f"the update search looks for {short(b, 80)}, not for a non-empty update"
+    return True
 
 
 def check_shape(rep, rule, en, shape, alts, key, detail=""):
@@ -58,10 +115,13 @@ def check_shape(rep, rule, en, shape, alts, key, detail=""):
     ok = True
     for i, r in enumerate(main):
         where = f"{fn.file}:{r['node'].get('sp', [fn.line])[0]}"
-        if r["residual"]:
+        # conditions on the state of the evaluation context (cache / duplicates / scope) only select *when* a path is taken; every
+        # path is checked, so they need not be decided.  A condition on anything else means the shape is under-specified.
+        undecided = [x for x in r["residual"] if not terms.mentions_param(x[1], en.params[2])]
+        if undecided:
             rep.unresolved(rule, f"{key}/path{i}", where,
                            "return path depends on a condition the rule cannot decide for a concrete node shape: " +
-                           "; ".join(short(x[1], 120) for x in r["residual"][:3]))
+                           "; ".join(short(x[1], 120) for x in undecided[:3]))
             ok = False
             continue
         if matches_any(E.NodeAlg, r["term"], alts):
@@ -319,22 +379,14 @@ def check_loop_protocol(rep, rule, prog, fn, engine):
             problems = []
             if not exits:
                 problems.append("no exit found")
+            lvars = info.get("vars", {})
             for s in exits:
                 ok = False
                 for t, pol in q.conds(s.pc):
-                    x = q.is_some_test(t)
-                    if x is None or pol or x[0] != "hof" or x[1] != "find":
-                        continue
-                    recv, body = x[2], x[3]
-                    src = recv
-                    while src[0] == "hof" and src[1] == "map":
-                        src = src[2]
-                    src = terms.strip_iter_adapters(src)
-                    elem = nz(("elem", recv))
-                    b = nz(body)
-                    nonempty = b[0] == "not" and b[1][0] == "call" and b[1][1].endswith("is_empty") and b[1][2] == (elem,)
-                    if want is not None and alg.canon(src) == want and nonempty:
+                    if not pol and first_nonempty_update(t, fn, nz) is True:
                         ok = True
+                    if stabilisation_test(t, pol, lid, lvars):
+                        ok = True           # `loop { if cur == prev { return cur } .. }`: the classical stabilisation loop in its other form
                 if not ok:
                     problems.append(f"exit at line {s.line()} is not conditioned on `no variable yields a non-empty update`")
             rep.check(not problems, rule, key, where,
@@ -375,9 +427,18 @@ def check_loop_protocol(rep, rule, prog, fn, engine):
         if cond and cond[0] == "not" and cond[1][0] == "loopvar" and cond[1][1] == lid:
             flag = cond[1][2]
             problems = []
-            fors = [(l2, i2) for l2, i2 in summ.loops.items() if i2.get("kind") == "for" and
-                    any(s.kind == "for" and s.node is i2.get("node") and lid in s.loops for s in summ.sites)]
-            if len(fors) != 1:
+            fors = [(l2, i2) for l2, i2 in summ.loops.items() if i2.get("kind") == "for" and (i2.get("node") or {}).get("k") not in ("mcall", "call") and
+                    any(s.kind == "for" and s.node is i2.get("node") and lid in s.loops for s in summ.sites)]      # iterator adapters are no loops
+            upd_flag = vars_.get(flag, (None, None))[1]
+            if not fors and upd_flag is not None and first_nonempty_update(nz(("not", upd_flag)), fn, nz) is not None:
+                # `flag = vars.map(update).find(non-empty).is_none()`: the sweep is an iterator pipeline, the flag says that
+                # no variable yields a non-empty update
+                ok_sweep = first_nonempty_update(nz(("not", upd_flag)), fn, nz)
+                if ok_sweep is not True:
+                    problems.append(ok_sweep)
+                for s in breaks:
+                    problems.append(f"early exit from the saturation loop at line {s.line()}")
+            elif len(fors) != 1:
                 problems.append("expected exactly one inner `for` over the network variables")
             else:
                 fid, finfo = fors[0]
